@@ -157,6 +157,8 @@ def replay_layout(cases):
                 if cfg["srid"] != "ECEF" and cfg["sep"] == "c" and cfg["tf"] == 1:
                     try:
                         with core.quiet():
+                            if salt == 1 and track.size() >= 2:
+                                track.addObs(track.getObs(0))          # a ring closed with the SAME observation object
                             back = TrackReader.parseWkt(track.toWKT())
                         if back.size() != track.size() or any(back.getObs(k).position.getX() != track.getObs(k).position.getX() or
                                                               back.getObs(k).position.getY() != track.getObs(k).position.getY() for k in range(track.size())):
